@@ -18,6 +18,7 @@ SPEC = {
         ("non-emitting search(stopped marking only under debug; only live entries continued)", 'ne_end', r'^(debug:|ne-end:only-live)'),
         ("non-emitting search, inner levels(stopped candidates are not known states; only live entries continued)", 'ne_inner', r'^(debug:(stopped|placeholder)|ne-inner:only-live)'),
         ("_build_node_path(a stopped entry is never chosen)", 'final_choice', r'live'),
+        ("_node_in_prev_ne(the visited test walks the stored best predecessors only: `prev_other` also records the predecessors of candidates that were cut off, which reach update() only under debug)", 'visited', r'^visited:only-the-best'),
         ("match(only non-stopped entries count as solutions; early stop at 0 returns ([],0); the early-stop index is reset in EVERY call, also the one that finds no start candidate - with placeholders under debug that call takes another path)", 'match', r'^(loop:(early-stop|continues)|result:(empty|early_stop_idx-reset))')],
     'bounded': [
         ('error-vs-debug-level', suites.case_C19, 1500, 200000, RULE + '; ' + 'non-trivial = at least one candidate was cut off; after every operation best_last_matches(k=1,2) (the selection continue_with_distance starts from) is compared as well', '')],
